@@ -880,6 +880,19 @@ fn check_adapters(cache: &Cache, calls: &[bool]) {
         // count / last / nth / nth_back / fold / rfold on the crate's own iterator types
         macro_rules! on { ($ctor:expr, $p:expr) => {{
             let adv = |it: &mut _| { let it: &mut dyn DoubleEndedIterator<Item = _> = it; for f in calls { if *f { it.next(); } else { it.next_back(); } } };
+            // bounded probe first: an iterator that yields more than what remains (an entry twice, a cycle)
+            // must be reported, not looped over by the unbounded adapters below
+            let mut it = $ctor; adv(&mut it);
+            let mut got = 0usize;
+            while got <= n + 1 { if it.next().is_none() { break; } got += 1; }
+            let mut it = $ctor; adv(&mut it);
+            let mut gotb = 0usize;
+            while gotb <= n + 1 { if it.next_back().is_none() { break; } gotb += 1; }
+            if got != n || gotb != n {
+                bad.push(format!("{}: after the calls {:?} (true = next, false = next_back) {} items remain, but next() then yields {}{} and next_back() {}{}",
+                    name, calls, n, got, if got > n + 1 { "+" } else { "" }, gotb, if gotb > n + 1 { "+" } else { "" }));
+                continue;
+            }
             let mut it = $ctor; adv(&mut it);
             let c = it.count();
             if c != n { bad.push(format!("{}: count() = {} but {} items remain", name, c, n)); }
@@ -924,16 +937,16 @@ fn run_shared(cache: &Cache, step: u64) -> String {
         3 => format!("lru {:?}", cache.peek_lru().map(|(k, v)| (kd(k), vd(v)))),
         4 => format!("mru {:?}", cache.peek_mru().map(|(k, v)| (kd(k), vd(v)))),
         5 => format!("nums {} {} {} {} {}", cache.len(), cache.is_empty(), cache.current_size(), cache.max_size(), cache.capacity()),
-        6 => format!("iter {:?}", cache.iter().map(|(k, v)| (kd(k), vd(v))).collect::<Vec<_>>()),
-        7 => format!("riter {:?}", cache.iter().rev().map(|(k, v)| (kd(k), vd(v))).collect::<Vec<_>>()),
-        8 => format!("keys {:?}", cache.keys().map(kd).collect::<Vec<_>>()),
-        9 => format!("rvalues {:?}", cache.values().rev().map(vd).collect::<Vec<_>>()),
+        6 => format!("iter {:?}", cache.iter().take(cache.len() + 2).map(|(k, v)| (kd(k), vd(v))).collect::<Vec<_>>()),
+        7 => format!("riter {:?}", cache.iter().rev().take(cache.len() + 2).map(|(k, v)| (kd(k), vd(v))).collect::<Vec<_>>()),
+        8 => format!("keys {:?}", cache.keys().take(cache.len() + 2).map(kd).collect::<Vec<_>>()),
+        9 => format!("rvalues {:?}", cache.values().rev().take(cache.len() + 2).map(vd).collect::<Vec<_>>()),
         10 => format!("dbg {:?}", cache),
         11 => {
             // both ends alternately
             let mut it = cache.iter();
             let mut out = Vec::new();
-            loop {
+            for _ in 0..cache.len() + 2 {
                 match it.next() { Some((k, _)) => out.push(kd(k).id), None => break }
                 match it.next_back() { Some((k, _)) => out.push(kd(k).id), None => break }
             }
